@@ -1,8 +1,110 @@
 (* C03 - the packet codec round-trips and is canonical for all 14 packet types.
    Statements: Codec/Statements.v.  Model: Codec/Impl.v (package message), reference wire
    format: Codec/Wire.v.  This file only closes statements with proved lemmas. *)
-From Codec Require Import Statements ProofsIds.
+From Codec Require Import Statements ProofsIds ProofsEncode ProofsAccept ProofsReencode.
 
+(* Encode writes exactly Len() bytes and they are the MQTT 3.1.1 wire encoding of the fields, for every
+   message that can be built through the API *)
+Theorem C03_encode_pub : Statements.C03_encode_pub.
+Proof. exact ProofsEncode.encode_pub. Qed.
+Print Assumptions C03_encode_pub.
+
+Theorem C03_encode_ack : Statements.C03_encode_ack.
+Proof. exact ProofsEncode.encode_ack. Qed.
+Print Assumptions C03_encode_ack.
+
+Theorem C03_encode_empty : Statements.C03_encode_empty.
+Proof. exact ProofsEncode.encode_empty. Qed.
+Print Assumptions C03_encode_empty.
+
+Theorem C03_encode_connack : Statements.C03_encode_connack.
+Proof. exact ProofsEncode.encode_connack. Qed.
+Print Assumptions C03_encode_connack.
+
+Theorem C03_encode_suback : Statements.C03_encode_suback.
+Proof. exact ProofsEncode.encode_suback. Qed.
+Print Assumptions C03_encode_suback.
+
+Theorem C03_encode_sub : Statements.C03_encode_sub.
+Proof. exact ProofsEncode.encode_sub. Qed.
+Print Assumptions C03_encode_sub.
+
+Theorem C03_encode_unsub : Statements.C03_encode_unsub.
+Proof. exact ProofsEncode.encode_unsub. Qed.
+Print Assumptions C03_encode_unsub.
+
+Theorem C03_encode_conn : Statements.C03_encode_conn.
+Proof. exact ProofsEncode.encode_conn. Qed.
+Print Assumptions C03_encode_conn.
+
+(* decoding the wire encoding of any well-formed packet yields a message with equal fields (also when
+   other bytes follow) *)
+Theorem C03_decode_wire_pub : Statements.C04_accepts_pub.
+Proof. exact ProofsAccept.accepts_pub. Qed.
+Print Assumptions C03_decode_wire_pub.
+
+Theorem C03_decode_wire_ack : Statements.C04_accepts_ack.
+Proof. exact ProofsAccept.accepts_ack. Qed.
+Print Assumptions C03_decode_wire_ack.
+
+Theorem C03_decode_wire_empty : Statements.C04_accepts_empty.
+Proof. exact ProofsAccept.accepts_empty. Qed.
+Print Assumptions C03_decode_wire_empty.
+
+Theorem C03_decode_wire_connack : Statements.C04_accepts_connack.
+Proof. exact ProofsAccept.accepts_connack. Qed.
+Print Assumptions C03_decode_wire_connack.
+
+Theorem C03_decode_wire_suback : Statements.C04_accepts_suback.
+Proof. exact ProofsAccept.accepts_suback. Qed.
+Print Assumptions C03_decode_wire_suback.
+
+Theorem C03_decode_wire_sub : Statements.C04_accepts_sub.
+Proof. exact ProofsAccept.accepts_sub. Qed.
+Print Assumptions C03_decode_wire_sub.
+
+Theorem C03_decode_wire_unsub : Statements.C04_accepts_unsub.
+Proof. exact ProofsAccept.accepts_unsub. Qed.
+Print Assumptions C03_decode_wire_unsub.
+
+Theorem C03_decode_wire_conn : Statements.C04_accepts_conn.
+Proof. exact ProofsAccept.accepts_conn. Qed.
+Print Assumptions C03_decode_wire_conn.
+
+(* for every byte string a decoder accepts, re-encoding reproduces exactly the bytes of that packet *)
+Theorem C03_reencode_pub : Statements.C03_reencode_pub.
+Proof. exact ProofsReencode.reencode_pub. Qed.
+Print Assumptions C03_reencode_pub.
+
+Theorem C03_reencode_ack : Statements.C03_reencode_ack.
+Proof. exact ProofsReencode.reencode_ack. Qed.
+Print Assumptions C03_reencode_ack.
+
+Theorem C03_reencode_empty : Statements.C03_reencode_empty.
+Proof. exact ProofsReencode.reencode_empty. Qed.
+Print Assumptions C03_reencode_empty.
+
+Theorem C03_reencode_connack : Statements.C03_reencode_connack.
+Proof. exact ProofsReencode.reencode_connack. Qed.
+Print Assumptions C03_reencode_connack.
+
+Theorem C03_reencode_suback : Statements.C03_reencode_suback.
+Proof. exact ProofsReencode.reencode_suback. Qed.
+Print Assumptions C03_reencode_suback.
+
+Theorem C03_reencode_sub : Statements.C03_reencode_sub.
+Proof. exact ProofsReencode.reencode_sub. Qed.
+Print Assumptions C03_reencode_sub.
+
+Theorem C03_reencode_unsub : Statements.C03_reencode_unsub.
+Proof. exact ProofsReencode.reencode_unsub. Qed.
+Print Assumptions C03_reencode_unsub.
+
+Theorem C03_reencode_conn : Statements.C03_reencode_conn.
+Proof. exact ProofsReencode.reencode_conn. Qed.
+Print Assumptions C03_reencode_conn.
+
+(* automatically assigned packet identifiers are never zero, for every value of the counter *)
 Theorem C03_packet_ids : Statements.C03_packet_ids.
 Proof. exact ProofsIds.packet_ids. Qed.
 Print Assumptions C03_packet_ids.
